@@ -26,6 +26,9 @@ func (params Params) ValidateParamsMintDenom() error {
 	if len(params.MintDenom) == 0 {
 		return fmt.Errorf("denom cannot be empty")
 	}
+	if err := sdk.ValidateDenom(params.MintDenom); err != nil {
+		return err
+	}
 	return nil
 }
 
